@@ -40,6 +40,7 @@ type c08Run struct {
 	Prog    int    `json:"prog"` // index into the job's program list
 	Seed    uint64 `json:"seed"`
 	Density int64  `json:"density"`
+	Opt     int    `json:"opt"` // optimizer level of this execution (rotates 0..3 over a program's executions)
 }
 
 type c08Job struct {
@@ -116,7 +117,10 @@ func TestC08Worker(t *testing.T) {
 		bytecode.VerifStepLimit.Store(i0 + c08StepBudget)
 
 		// names carrying the marker are made unique to this execution (cold conformance cache)
-		res := egorun.Run(strings.ReplaceAll(p.Ego, uniqMarker, fmt.Sprintf("U%dr%d_", run.Prog, i)), progConfig(p))
+		cfg := progConfig(p)
+		cfg.Opt = run.Opt
+
+		res := egorun.Run(strings.ReplaceAll(p.Ego, uniqMarker, fmt.Sprintf("U%dr%d_", run.Prog, i)), cfg)
 
 		wd.Stop()
 		bytecode.VerifYieldDensity.Store(0)
@@ -356,14 +360,14 @@ func TestC08(t *testing.T) {
 	for pi := range progs {
 		if replayRun != nil {
 			for k := 0; k < 25; k++ {
-				runs = append(runs, c08Run{Prog: pi, Seed: replayRun.Seed + uint64(k/5), Density: replayRun.Density})
+				runs = append(runs, c08Run{Prog: pi, Seed: replayRun.Seed + uint64(k/5), Density: replayRun.Density, Opt: k % 4})
 			}
 
 			continue
 		}
 
 		for s := 0; s < nSeeds; s++ {
-			runs = append(runs, c08Run{Prog: pi, Seed: seedRng.Uint64(), Density: c08Densities[s%len(c08Densities)]})
+			runs = append(runs, c08Run{Prog: pi, Seed: seedRng.Uint64(), Density: c08Densities[s%len(c08Densities)], Opt: (s + pi) % 4})
 		}
 	}
 
@@ -530,12 +534,13 @@ func TestC08(t *testing.T) {
 			r.Max("goroutines.max_per_program", int64(p.Goroutines))
 			r.Count(fmt.Sprintf("density:%d", run.Density), 1)
 			r.Count("types:"+p.Types, 1)
+			r.Count(fmt.Sprintf("optimizer_level:%d", run.Opt), 1)
 
 			if rc.Yields > 0 {
 				patterns[fmt.Sprintf("%d/%d", run.Density, run.Seed)] = true
 			}
 
-			witness := map[string]any{"program": p, "seed": run.Seed, "density": run.Density, "gomaxprocs": gmp, "expected": ref[p.ID]}
+			witness := map[string]any{"program": p, "seed": run.Seed, "density": run.Density, "opt": run.Opt, "gomaxprocs": gmp, "expected": ref[p.ID]}
 
 			for _, rb := range ParseRaceBlocks(rc.Race) {
 				if isHarnessRace(rb.Key) {
